@@ -422,7 +422,7 @@ impl<'a> Gen<'a> {
         for _ in 0..n {
             if self.fns && self.body_depth < 2 && (start.is_none() || self.body_depth > 0) && self.r.chance(1, 3) {
                 // `#P { … } =f` as a whole step (at the top level, or — nested — as a step of a body)
-                let p = match self.r.below(4) {
+                let p = match if self.rec && self.r.chance(1, 2) { 3 } else { self.r.below(4) } {
                     0 => Ty::Tup(None, vec![Ty::Int, Ty::Int]),
                     1 => Ty::Tup(Some("A".into()), vec![Ty::Int]),
                     2 => Ty::Tup(None, vec![]),
